@@ -268,9 +268,13 @@ func genRotHuge(out *bufio.Writer, rng *rand.Rand, count int) int {
 				off := b.offsets[i]
 				if variant == 1 {
 					off = (off + k) % m
-					// the largest multiple of m that keeps off + len + start below 2^64
-					j := (^uint64(0) - off - 64) / m
-					if rng.Intn(2) == 0 {
+					// a multiple of m near the top of the range: the largest number congruent to off (the
+					// code then "passes" 2^64), one that keeps off + len + start below 2^64, or just above 2^63
+					j := (^uint64(0) - off) / m
+					switch rng.Intn(3) {
+					case 0:
+						j = (^uint64(0) - off - 64) / m
+					case 1:
 						j = (uint64(1)<<63)/m + 1
 					}
 					off += j * m
